@@ -102,6 +102,8 @@ def main(what, rest):
             if out.returncode != 0:
                 rc = 1
         return rc
+    if what == "benign":
+        return benign_selftest(rest)
     if what == "findings":
         return findings_selftest()
     if what == "determinism":
@@ -167,3 +169,39 @@ def findings_selftest():
         finally:
             shutil.rmtree(d, ignore_errors=True)
     return rc_all
+
+
+def benign_selftest(names):
+    """Negative controls: no check may raise an alarm on a change under which
+    the property still holds."""
+    from selftests import benign as B
+    bad = 0
+    for m in B.BENIGN:
+        if names and m["name"] not in names:
+            continue
+        d = _scratch_copy()
+        try:
+            path = os.path.join(d, m["file"])
+            src = open(path).read()
+            if src.count(m["old"]) != 1:
+                print("%-44s STALE (old text found %d times)" % (m["name"], src.count(m["old"])))
+                bad += 1
+                continue
+            open(path, "w").write(src.replace(m["old"], m["new"]))
+            ok, tail = _suite_passes(d)
+            env = dict(os.environ, VERIF_REPO=d, VERIF_NO_DETERMINISM="1", PYTHONDONTWRITEBYTECODE="1",
+                       VERIF_REPLAY_DIR=os.path.join(d, "replays"), VERIF_EVIDENCE_DIR=os.path.join(d, "ev"))
+            verdicts = []
+            for p in m["props"]:
+                out = subprocess.run([PY, VCHECK, "run", p, "--scale", "0.5"], capture_output=True, text=True, env=env, timeout=3600)
+                if out.returncode != 0:
+                    bad += 1
+                    line = [l for l in out.stdout.splitlines() if l.startswith(("violation:", "HARNESS"))]
+                    verdicts.append("%s ALARM rc=%d %s" % (p, out.returncode, " | ".join(line)[:400]))
+                else:
+                    verdicts.append("%s ok" % p)
+            print("%-44s suite=%s  %s" % (m["name"], "pass" if ok else "fails(%s)" % tail[:30], "; ".join(verdicts)))
+        finally:
+            shutil.rmtree(d, ignore_errors=True)
+    print("benign changes with an alarm: %d" % bad)
+    return 0 if bad == 0 else 1
